@@ -254,7 +254,9 @@ def units(tier, seed):
     from cryptoparser.ssh import record as SR
     for cls in (SR.SshRecordInit, SR.SshRecordKexDH, SR.SshRecordKexDHGroup):
         out.append(packet_unit(cls))
-    return out + foundation.units(tier, seed)
+    from checks import tables as _tables
+    _table_units = _tables.units(_tables.SSH)
+    return out + foundation.units(tier, seed) + _table_units
 
 
 FINDING_REPLAYS = {}
